@@ -3,6 +3,7 @@
 mod act;
 mod body;
 mod c13;
+mod marker;
 mod pipe;
 mod radix;
 mod router;
@@ -28,6 +29,7 @@ fn main() {
         "tok" => util::run_cases(inp, outp, tok::run),
         "pipe" => util::run_cases(inp, outp, pipe::run_case),
         "url" => util::run_cases(inp, outp, url::run),
+        "marker" => util::run_cases(inp, outp, marker::run),
         "act" => util::run_cases(inp, outp, act::run),
         other => {
             eprintln!("harness: unknown driver {}", other);
